@@ -16,8 +16,16 @@ find_prog_section match and the address comparison are the generated expressions
    validate_silent_reloaded: validate reads only type/size/offset/address of sections and
    type/filesz/offset/vaddr of segments (validate_congr), so the reloaded object is silent too PROVIDED
    the loader reports those fields as saved — that composition with the loader model (C02/C05) is
-   NOT done here and is covered by the correspondence check; objects with nested segments are not
-   covered by validate_silent_save (C04's NestedSegmentStatement).
+   NOT done here and is covered by the correspondence check.  validate_silent_save already covers
+   objects with nested segments whose nested segments are not PT_LOAD with filesz > 0 (validate ignores
+   them; they need not be selected).  validate_silent_save_nested / validate_silent_reloaded_nested
+   (C04.save_layoutOk_nested) add the remaining case: a PT_LOAD with filesz > 0 that is itself nested
+   (`layoutSelB segNestedStartB selN`: at its turn its first member had been generated, so it starts at
+   that member's offset), provided that first member occupies file space and carries the segment's
+   p_vaddr (writer domain: "nested segments start at a member's address"); the section at the segment's
+   first file byte is then that member (disjointness).  Non-vacuity: exNestedLoad (PT_LOAD nested in a
+   PT_LOAD) meets the hypotheses, saves, and validate is silent.  Not covered: a nested PT_LOAD whose
+   first member is empty or NOBITS.
 Correspondence: family load (`validate` op).  Oracle: (a) no complaint after save of a writer-domain
 program and after reload; (b) after forcing section j onto section i's offset in the saved bytes
 (independent byte patch) and reloading: >= 1 overlap complaint whenever both are non-empty and occupy
@@ -33,7 +41,8 @@ LEAN_MODULE = "ElfioVerif.Props.C20"
 THEOREMS = ["ElfioVerif.C20.validate_overlap", "ElfioVerif.C20.validate_overlap_only_if",
             "ElfioVerif.C20.validate_skew", "ElfioVerif.C20.validate_skew_only_if",
             "ElfioVerif.C20.validate_overlap_witness_prefix", "ElfioVerif.C20.validate_silent",
-            "ElfioVerif.C20.validate_silent_save", "ElfioVerif.C20.validate_silent_reloaded"]
+            "ElfioVerif.C20.validate_silent_save", "ElfioVerif.C20.validate_silent_reloaded",
+            "ElfioVerif.C20.validate_silent_save_nested", "ElfioVerif.C20.validate_silent_reloaded_nested"]
 SITES = ["validate", "find_prog", "is_offset_in_section", "get_virtual_addr"]
 RULE = ("writer-domain programs x 4 configurations: save, validate, reload, validate (silence expected); then for "
         "sampled (quick) / all (thorough) ordered pairs of sections: force an overlap by rewriting one sh_offset in "
